@@ -4,12 +4,13 @@ From FV Require Import Base.Bytes Base.U64 Mem.SVec Mem.MemSpec Mem.MemModel Mem
 Open Scope N_scope.
 
 (* one operation: the two-buffer model and the flat array produce the same observable result and
-   stay related.  `rollback_defined` is `True` for every operation except rollback, where it asks
-   that the snapshot's heap pointer is below the current one (documented assertion, both sides
-   panic) or that the snapshot's stack extent does not exceed the current stack extent. *)
+   stay related.  No side condition: the only precondition of rollback, the documented assertion
+   "the heap may only shrink" (snapshot hp >= current hp), is part of the specification itself
+   (step_spec returns HostPanic for SRollback when hp snapshot < hp current) and of the model, see
+   C23_rollback_heap_precondition below. *)
 Theorem C23_refine_step :
   forall (st : state) (sst : sstate) (op : sop),
-    Rst st sst -> rollback_defined sst op ->
+    Rst st sst ->
     Rst (fst (step st op)) (fst (step_spec sst op)) /\
     snd (step_spec sst op) = denote_out (snd (step st op)).
 Proof. exact step_refines. Qed.
@@ -18,7 +19,6 @@ Print Assumptions C23_refine_step.
 (* every history from MemoryInstance::new(): same outputs, related final states *)
 Theorem C23_refine_history :
   forall ops : list sop,
-    hist_defined sstate_init ops ->
     Rst (fst (run state_init ops)) (fst (run_spec sstate_init ops)) /\
     snd (run_spec sstate_init ops) = map denote_out (snd (run state_init ops)).
 Proof. exact run_refines_init. Qed.
@@ -63,18 +63,40 @@ Theorem C23_copy_overlap_kind :
 Proof. exact copy_overlap_refused_kind. Qed.
 Print Assumptions C23_copy_overlap_kind.
 
-(* rollback(collect_rollback_data(m, m0)) has exactly m0's bounds and accessible contents *)
+(* rollback(collect_rollback_data(m, m0)) has exactly m0's bounds and accessible contents, whatever
+   the current stack extent (shorter, equal or longer than the snapshot's) *)
 Theorem C23_rollback :
   forall (m m0 : mem) (d : rollback_data) (m' : mem),
-    Inv m -> Inv m0 -> sv_len (stack m0) <= sv_len (stack m) ->
+    Inv m -> Inv m0 ->
     collect_rollback_data m m0 = inl (Some d) -> rollback m d = inl m' ->
     flat_obs_eq (abs m') (abs m0).
 Proof. exact rollback_restores. Qed.
 Print Assumptions C23_rollback.
 
-(* FINDING: without the side condition the refinement is false: after the heap has overtaken the
-   snapshot's stack extent, rollback panics (model and implementation) where the property asks
-   for the snapshot to be restored *)
-Theorem C23_refine_history_unconditional_refuted : ~ refines_all_histories.
-Proof. exact refines_all_histories_refuted. Qed.
-Print Assumptions C23_refine_history_unconditional_refuted.
+(* the one remaining precondition, explicitly: snapshot hp < current hp => the assertion fires;
+   otherwise collect + rollback never panic *)
+Theorem C23_rollback_heap_precondition :
+  forall m m0 : mem, mhp m0 < mhp m -> collect_rollback_data m m0 = inr HostPanic.
+Proof. exact rollback_heap_precondition. Qed.
+Print Assumptions C23_rollback_heap_precondition.
+
+Theorem C23_rollback_total_otherwise :
+  forall m m0 : mem,
+    Inv m -> Inv m0 -> mhp m <= mhp m0 ->
+    match collect_rollback_data m m0 with
+    | inr _ => False
+    | inl None => True
+    | inl (Some d) => exists m', rollback m d = inl m'
+    end.
+Proof. exact rollback_never_panics_otherwise. Qed.
+Print Assumptions C23_rollback_total_otherwise.
+
+(* HISTORICAL (before fix 75e7afe the refinement was false on this history: collect_rollback_data
+   panicked when the snapshot's stack extent exceeded the current one).  On the repaired code the
+   witness history restores the snapshot, in the model and in the specification. *)
+Theorem C23_rollback_regression_witness :
+  map denote_out (snd (run state_init witness_history)) =
+  [SUnit; SUnit; SUnit; SUnit; SUnit; SBytes [0; 0; 1; 2; 3; 0]] /\
+  snd (run_spec sstate_init witness_history) = map denote_out (snd (run state_init witness_history)).
+Proof. exact witness_history_restores. Qed.
+Print Assumptions C23_rollback_regression_witness.
